@@ -2076,6 +2076,11 @@ func execAny(cs string) string {
 	if strings.HasPrefix(strings.TrimSpace(cs), "slot ") {
 		run = execSlot
 	}
+	if f := strings.Fields(cs); len(f) > 2 && f[0] == "free" && f[1] == "slot" {
+		return execSlotStress(f[2:])
+	} else if len(f) > 2 && f[0] == "free" && f[1] == "race" {
+		return execSlotRace(f[2:])
+	}
 	obs := run(cs)
 	if obs == "timeout" {
 		watchdog = 90 * time.Second
